@@ -61,6 +61,15 @@ Proof. exact error_rule. Qed.
 Theorem C04_perfect_rule : forall dkz o sd L, z0 dkz = 0 -> optimum_poling_period dkz o sd L = AutoInfinite.
 Proof. exact perfect_rule. Qed.
 
+(* PeriodicPoling::try_as_optimum / SPDC::assign_optimum_periodic_poling / SPDC::optimum_periodic_poling (both arms translated;
+   the SPDC methods pinned): from an unpoled base as from a poled one, the installed poling is PeriodicPoling::new of the period
+   optimum_poling_period returned — signed period = that period, k_eff = 2 pi / period *)
+Theorem C04_assigned_poling : forall base_on opp, opp <> 0 ->
+  assigned_poling base_on opp = poling_of opp /\ 0 < tao_period base_on opp /\
+  pp_signed_period_on (tao_positive base_on opp) (tao_period base_on opp) = opp /\
+  pp_k_eff (assigned_poling base_on opp) = 2 * PI / opp.
+Proof. exact assigned_poling_spec. Qed.
+
 (* with exact simplex operations: a seed 2 pi / |dkz unpoled| more than 1 um above the crystal length is always refused
    (every evaluated point stays outside the bounds) — for every mismatch function and termination test *)
 Theorem C04_seed_beyond_length_error : forall dkz sd L, z0 dkz <> 0 -> L + 1e-6 < Rabs (2 * PI / z0 dkz) ->
@@ -272,10 +281,16 @@ Proof. exact (conj Rltb_irrefl (conj Rltb_trans Rltb_cotrans)). Qed.
 Example C04_nonvacuous_period : forall o sd, optimum_poling_period ex_dkz o sd (1 / 100) = AutoOk (1 / 1000).
 Proof. exact nonvacuous. Qed.
 
+(* the hypotheses of C04_collinear_dkz / C04_collinear_root are satisfiable with a NON-ZERO unpoled mismatch: dispersive index
+   n(l) = 1 + l/4, pump wavelength 1, signal wavelength 2: dkz(unpoled) = -pi/2, the closing vector never vanishes for the
+   (negative) sign the search uses, and |2 pi / dkz| = 4 is admissible for L = 10 *)
 Example C04_nonvacuous_collinear :
-  let index := fun (_ : R) (_ : vec) (_ : polarization) => 3 / 2 in
-  w_z index Ordinary Ordinary 0 0 2 1 (1, 1) (1, 1) PPOff <> 0 /\ w_z index Ordinary Ordinary 0 0 2 1 (1, 1) (1, 1) (PPOn 1 false) <> 0.
-Proof. exact nonvacuous_collinear. Qed.
+  let index := fun (l : R) (_ : vec) (_ : polarization) => 1 + l / 4 in
+  dkz_of index Type2_e_eo false (beam_new Ordinary 0 0 2 (1, 1)) (pump_new Ordinary 1 (1, 1)) PPOff = - (PI / 2) /\
+  dkz_of index Type2_e_eo false (beam_new Ordinary 0 0 2 (1, 1)) (pump_new Ordinary 1 (1, 1)) PPOff <> 0 /\
+  w_z index Ordinary Ordinary 0 0 2 1 (1, 1) (1, 1) PPOff <> 0 /\
+  (forall x, 0 < x -> w_z index Ordinary Ordinary 0 0 2 1 (1, 1) (1, 1) (PPOn x false) <> 0).
+Proof. exact nonvacuous_collinear_dispersive. Qed.
 
 Print Assumptions C04_nm_monotone.
 Print Assumptions C04_nm_monotone_iter.
@@ -304,3 +319,4 @@ Print Assumptions C04_dkz_closed_form.
 Print Assumptions C04_phi_increasing.
 Print Assumptions C04_dkz_monotone_positive.
 Print Assumptions C04_dkz_monotone_negative.
+Print Assumptions C04_assigned_poling.
